@@ -71,13 +71,28 @@ def mask_varconfig(b):
 WALLTIME_IDS = (126, 127)
 
 
-def fields_masked(s, drop_walltime=True):
+def mask_scratch(b):
+    """p_jh records: only x..vz and m carry state (ax..az are per-step scratch) by the integrators; r, last_collision and hash are
+    whatever malloc left there"""
+    b = bytearray(b)
+    for o in range(0, len(b) - PART_SIZE + 1, PART_SIZE):
+        b[o + 48:o + 72] = b"\0" * 24     # ax..az: recomputed from the inertial accelerations in every step
+        b[o + 72:o + 96] = b"\0" * 24     # m (transformations take masses from the real particles), r, last_collision
+        b[o + 104:o + 112] = b"\0" * 8
+    return bytes(b)
+
+
+def fields_masked(s, drop_walltime=True, sort_particles=False):
     """dict type -> payload with pointer members of particle-like records zeroed."""
     f, _ = parse(s)
     d = {}
     for t, b in f:
         if t in PARTICLE_FIELDS:
             b = mask_particles(b)
+            if t == 104:
+                b = mask_scratch(b)
+            if t == 85 and sort_particles:
+                b = b"".join(sorted(b[i:i + PART_SIZE] for i in range(0, len(b), PART_SIZE)))
         elif t == VARCONFIG_ID:
             b = mask_varconfig(b)
         elif t == 399:  # pjh0 = 4 particles
@@ -91,10 +106,30 @@ def fields_masked(s, drop_walltime=True):
 def field_names():
     """type -> name from the exported descriptor table."""
     import rebound
-    from rebound.binary_field_descriptor import BinaryFieldDescriptor
     out = {}
-    for fd in BinaryFieldDescriptor.list():
-        out[fd.type] = fd.name.decode() if isinstance(fd.name, bytes) else fd.name
+    for fd in descriptors():
+        out[fd["type"]] = fd["name"]
+    return out
+
+
+def descriptors():
+    """the exported reb_binary_field_descriptor_list as a list of dicts (own walker, independent of the Python mirror)"""
+    import rebound
+    cl = rebound.clibrebound
+
+    class FD(ctypes.Structure):
+        _fields_ = [("type", ctypes.c_uint), ("dtype", ctypes.c_int), ("name", ctypes.c_char * 1024),
+                    ("offset", ctypes.c_size_t), ("offset_N", ctypes.c_size_t), ("element_size", ctypes.c_size_t)]
+    base = ctypes.addressof((FD * 1).in_dll(cl, "reb_binary_field_descriptor_list"))
+    out = []
+    i = 0
+    while i < 2000:
+        fd = FD.from_address(base + i * ctypes.sizeof(FD))
+        out.append({"type": fd.type, "dtype": fd.dtype, "name": fd.name.decode("ascii", "replace"), "offset": fd.offset,
+                    "offset_N": fd.offset_N, "element_size": fd.element_size})
+        if fd.dtype == 13:
+            break
+        i += 1
     return out
 
 
